@@ -62,6 +62,51 @@ def gen(rng, tier, i):
 
 
 gen = _gen.with_lines(gen, ['_service_task', 'disconnect', 'close', '_get_socket', 'send', 'handle_request', '_handle_connect'])
+_gen_general = gen
+
+
+def gen_reconnect(rng, tier, i):
+    """Threaded server, line granularity: the table empties, the monitor idles,
+    and the next client arrives in the very instant the monitor wakes up
+    (it wakes every ping_timeout, counted from the first connection ever)."""
+    plan = _gen.gen_server_plan(rng, _gen.profile(
+        servers=['threaded'], max_sessions=1, I=[1.0, 2.0], T=[0.5, 1.0],
+        p_upgrade=0.0, p_sabotage=0.0, sends=(0, 1), client_msgs=(0, 0),
+        p_end=0.0, p_app_disconnect=0.0, p_disconnect_all=0.0,
+        p_handler_fault=0.0, p_reject=0.0, p_no_monitor=0.0, p_ws_fault=0.0,
+        p_overlap_polls=0.0, p_pong_misbehave=0.0, p_late_open=0.0,
+        p_ws_open=0.0, span=3.0))
+    a = plan['sessions'][0]
+    T = plan['config']['ping_timeout']
+    a['end'] = {'t': _gen.ticks(rng, 0.05, 0.4), 'how': 'close_packet'}
+    b = {'open': rng.choice(['polling', 'polling', 'websocket']),
+         't_open': a['t_open'] + rng.randint(1, 8) * T,
+         'poll': {'mode': 'auto', 'gap': 1}, 'upgrades': [],
+         'pong': {'default': {'mode': 'prompt', 'delay': 1}}, 'msgs': [],
+         'end': {'t': _gen.ticks(rng, 0.2, 1.5),
+                 'how': rng.choice(['vanish', 'close_packet', 'vanish'])}}
+    if rng.random() < 0.5:
+        b['t_open'] += rng.choice([-1, 1]) * TICK
+    plan['sessions'].append(b)
+    plan['app'] = []
+    plan['fixed_latency'] = 0
+    plan['line'] = {'mean': rng.choice([1, 2, 4]), 'max': 64,
+                    'focus': rng.choice([['_handle_connect'],
+                                         ['_service_task'],
+                                         ['_handle_connect',
+                                          '_service_task']])}
+    I = plan['config']['ping_interval']
+    plan['horizon'] = b['t_open'] + 3.0 + 2 * I + 10 * T
+    return plan
+
+
+def gen(rng, tier, i):
+    if rng.random() < 0.04:
+        return gen_reconnect(rng, tier, i)
+    return _gen_general(rng, tier, i)
+
+
+gen.lines = True
 
 def run(plan, sched_values=None, sched_seed=0):
     h = run_server_scenario(plan, sched_values, sched_seed)
